@@ -75,7 +75,7 @@ def close(e, g):
 # defect had.
 L_FIXED = {"free-text-negation", "negation-over-sparse-field", "numeric-string-value-numeric-literal",
            "number-and-text-share-column", "int-value-decimal-literal", "by-field-sparse", "measure-field-sparse",
-           "measure-field-absent-from-dataset", "pq-ingest-negated-term"}
+           "measure-field-absent-from-dataset", "pq-ingest-negated-term", "pq-ingest-record-without-query-columns"}
 
 
 def cls_sig(kind, cls):
@@ -93,7 +93,7 @@ def agg_ok(name, e, g):
     if e == "none":
         return True  # an aggregate over no numeric input is undefined: whatever the engine prints is accepted
     fn = name.split(".")[0]
-    if fn in ("count", "min", "max", "dc"):
+    if fn in ("count", "min", "max", "dc", "cnt"):
         try:
             a, b = Fraction(e), Fraction(g)
         except Exception:
@@ -185,6 +185,10 @@ def tc_diff(exp, got, aggs):
             if any(x not in ZEROISH for x in gv):
                 diff.append((k, ";".join(gv), "no event in this cell"))
         elif gv is None:
+            # a series none of whose aggregates is defined in this cell (e.g. avg(m) over events that all lack m) carries
+            # no answer: the engine need not list it
+            if all(x == "none" for x in ev):
+                continue
             diff.append((k, None, ";".join(ev)))
         elif len(ev) != len(gv) or len(ev) != len(aggs) or not all(tc_val_ok(a, e, g) for a, e, g in zip(aggs, ev, gv)):
             diff.append((k, ";".join(gv), ";".join(ev)))
@@ -194,18 +198,21 @@ def tc_diff(exp, got, aggs):
 # ---------------------------------------------------------------- metrics (suite e2e_metrics; spec lean/SigModel/Spec/Metrics.lean)
 # which recorded deviation classes (cls= of the specification's answer, see Spec/Metrics.lean `classes`) can explain which
 # kind of disagreement; a disagreement that none of the query's classes can explain is reported without class
-M_SELECT = {"absent-label-matcher", "same-label-twice", "no-tags", "tsid-preimage-collision", "tag-value-over-64k"}
-M_LABELS = {"value-has-comma", "json-escaped-tag-value", "tsid-preimage-collision", "tag-value-over-64k"}
+M_SELECT = {"absent-label-matcher", "same-label-twice", "no-tags", "tsid-preimage-collision", "tag-value-over-64k",
+            "numeric-tag-value", "remote-write-escape", "tsids-per-value-over-64k"}
+M_LABELS = {"value-has-comma", "json-escaped-tag-value", "tsid-preimage-collision", "tag-value-over-64k",
+            "numeric-tag-value", "remote-write-escape", "tsids-per-value-over-64k"}
 M_RELEVANT = {
     "series-missing": M_SELECT,
-    "series-extra": {"absent-label-matcher", "matcher-on-missing-key", "same-label-twice", "tsid-preimage-collision", "regex-on-empty-value", "tag-value-over-64k"},
+    "series-extra": {"absent-label-matcher", "matcher-on-missing-key", "same-label-twice", "tsid-preimage-collision", "regex-on-empty-value", "tag-value-over-64k",
+                     "numeric-tag-value", "remote-write-escape", "tsids-per-value-over-64k"},
     "series-merged": {"name-regex-same-tagset", "tsid-preimage-collision"},
     "series-duplicated": set(),
     "labels-changed": M_LABELS,
-    "point-missing": {"tsid-preimage-collision", "absent-label-matcher", "tag-value-over-64k"},
+    "point-missing": {"tsid-preimage-collision", "absent-label-matcher", "tag-value-over-64k", "tsids-per-value-over-64k", "remote-write-escape", "numeric-tag-value"},
     "point-extra": {"tsid-preimage-collision"},
     "value-bits-changed": {"negative-zero", "tsid-preimage-collision", "name-regex-same-tagset"},
-    "query-error": set(),
+    "query-error": {"numeric-tag-value"},  # (repaired) "unknown value type" of the rotated exact-match reader
 }
 M_AGG = M_SELECT | M_LABELS | {"name-regex-same-tagset", "regex-on-empty-value", "empty-group-key", "matcher-on-missing-key"}
 # classes of REPAIRED deviations (known_findings.txt `fixed:` lines).  They never excuse anything: a disagreement that a
@@ -213,7 +220,8 @@ M_AGG = M_SELECT | M_LABELS | {"name-regex-same-tagset", "regex-on-empty-value",
 # explain is reported as e2em/in-class/<repaired class>, which no `known:` line lists any more — i.e. as a VIOLATION
 # under the name the defect had.
 M_FIXED = {"tsid-preimage-collision", "no-tags", "negative-zero", "json-escaped-tag-value",
-           "same-label-twice", "regex-on-empty-value", "tag-value-over-64k", "matcher-on-missing-key"}
+           "same-label-twice", "regex-on-empty-value", "tag-value-over-64k", "matcher-on-missing-key",
+           "numeric-tag-value", "remote-write-escape", "tsids-per-value-over-64k"}
 
 
 def m_sig(what, cls):
@@ -460,6 +468,10 @@ def compare(impl, model):
             exp = parse_recs(mb.get("recs", ""))[frm:frm + size]
             got = parse_recs(ia.get("recs", ""))
             got = sorted(got, key=lambda r: (-int(r[1]) if r[1].isdigit() else 0, int(r[0]) if r[0].isdigit() else -1))
+            # events the specification leaves to the engine (sent but not flushed when the query ran): may be there
+            mayv = set(x for x in mb.get("may", "").split(",") if x)
+            expv = set(r[0] for r in exp)
+            got = [r for r in got if r[0] in expv or r[0] not in mayv]
             gv, ev = [r[0] for r in got], [r[0] for r in exp]
             if len(set(gv)) != len(gv):
                 fails.append(("e2e/recs/duplicate-event", "query %d: duplicate events %s" % (qi, gv[:30])))
@@ -567,6 +579,10 @@ def compare(impl, model):
                 for k in list(gr):
                     if k not in er and "" in unhex(k).split("\x1f"):
                         del gr[k]
+            if not gr and set(er) == {""} and mb.get("nmust") == "0":
+                # stats without by over NO matching event: the aggregate row over nothing (count 0) or no row at all — the
+                # engine's stats processor answers with no row when the time range holds no block at all
+                continue
             if er != gr:
                 keys = sorted(set(er) | set(gr))
                 diff = [(unhex(k), gr.get(k), er.get(k)) for k in keys if gr.get(k) != er.get(k)]
